@@ -297,7 +297,7 @@ def p_boundaries(prop, c):
 
 def check_C04(tier, seed, replay):
     res, runs, cases = generic(
-        "C04", ["uni"], tier, seed, replay, [p_boundaries, props.p_conforms],
+        "C04", ["uni", "randuni"], tier, seed, replay, [p_boundaries, props.p_conforms],
         "literals / ranges / ci literals / classes / char / extern over {a, A, e-acute (C3 A9), U+9053 (E9 81 93), "
         "U+1F600} and code-point range end points x all inputs up to the bound plus seeded random Unicode strings; "
         "non-trivial = input containing a multi-byte character",
@@ -507,7 +507,7 @@ def p_ranges_nest(prop, c):
 
 def check_C09(tier, seed, replay):
     res, runs, cases = generic(
-        "C09", ["pos", "ws", "uni", "user", "rand"], tier, seed, replay, [p_ranges],
+        "C09", ["pos", "ws", "uni", "user", "rand", "randuni"], tier, seed, replay, [p_ranges],
         "every subset of @position marks on struct / @string / enum-override rules, memoized and left-recursive "
         "replays, multi-byte characters and whitespace at rule boundaries x all inputs up to the bound; non-trivial = "
         "accepted input whose tree carries at least two ranges",
@@ -682,7 +682,7 @@ def p_user_context(prop, c):
 
 def check_C14(tier, seed, replay):
     res, runs, cases = generic(
-        "C14", ["user", "userctx"], tier, seed, replay,
+        "C14", ["user", "userctx", "rand"], tier, seed, replay,
         [lambda p, c: None if c.crashed else props.p_conforms(p, c),
          lambda p, c: None if c.crashed else props.p_tree(p, c, ranges=True), p_user_calls, p_user_context],
         "extern rules (String / &str / char results, zero-length, failing) inside sequences, closures, choices, "
